@@ -236,6 +236,26 @@ def consequences(ck, seed, tier):
             if float(torch.triu(J, diagonal=1).abs().max()) if F > 1 else 0.0:
                 ck.finding("MaskedAffineAutoregressive:jacobian-not-triangular", "upper triangle non-zero: %s" % J.tolist(),
                            {"search": "ar-jacobian", "F": F, "random_mask": rmask, "seed": seed})
+    # many features, double precision, mild parameters (the map is well conditioned: the unchanged code reproduces x to 1e-14): one
+    # pass per feature is exact - a loop that stops early, judging convergence at another precision, is not
+    for F in ((12, 20) if tier == "quick" else (8, 12, 16, 20, 32)):
+        for rep in range(2):
+            torch.manual_seed(seed % 100000 + F + 1000 * rep)
+            t = ar.MaskedAffineAutoregressiveTransform(features=F, hidden_features=16, num_blocks=2)
+            with torch.no_grad():
+                for prm in t.parameters():
+                    prm.copy_(torch.randn(prm.shape) * 0.3)
+            t = t.double().eval()
+            x = torch.randn(4, F, dtype=torch.float64)
+            with torch.no_grad():
+                y, lad = t(x)
+                xr, ladr = t.inverse(y)
+            ck.case(("ar-inverse-many", F, rep), nontrivial=True)
+            err = float(((xr - x).abs() / (1 + x.abs())).max())
+            if err > 1e-12 or float((lad + ladr).abs().max()) > 1e-11 * (1 + float(lad.abs().max())):
+                ck.finding("MaskedAffineAutoregressive:inverse-not-exact",
+                           "%d features, float64: inverse(forward(x)) differs from x by %.3g (relative) after one pass per feature, log-dets by %.3g"
+                           % (F, err, float((lad + ladr).abs().max())), {"search": "ar-inverse-many", "F": F, "rep": rep, "seed": seed})
     for F in ([2, 3] if tier == "quick" else [1, 2, 3, 4]):
         torch.manual_seed(seed + 100 + F)
         d = MADEMoG(features=F, hidden_features=6, context_features=2, num_blocks=1, num_mixture_components=3)
